@@ -200,6 +200,8 @@ impl StorageEngine {
             )));
         }
 
+        #[cfg(inputlayer_verif)]
+        crate::verif_hooks::yield_point("se.create.after_dropping_check");
         // Atomic check-and-insert to prevent TOCTOU race
         use dashmap::mapref::entry::Entry;
         let entry = self.knowledge_graphs.entry(name.to_string());
@@ -224,6 +226,8 @@ impl StorageEngine {
             }
         }
 
+        #[cfg(inputlayer_verif)]
+        crate::verif_hooks::yield_point("se.create.after_insert");
         // Update system metadata
         self.save_knowledge_graphs_metadata()?;
 
@@ -258,9 +262,13 @@ impl StorageEngine {
         // Add to tombstone BEFORE removing from DashMap (ordering matters for RC-2)
         self.dropping_kgs.write().insert(name.to_string());
 
+        #[cfg(inputlayer_verif)]
+        crate::verif_hooks::yield_point("se.drop.after_tombstone");
         // Remove from in-memory DashMap (instant)
         self.knowledge_graphs.remove(name);
 
+        #[cfg(inputlayer_verif)]
+        crate::verif_hooks::yield_point("se.drop.after_remove");
         // Save metadata JSON (small file write, fast)
         self.save_knowledge_graphs_metadata()?;
 
@@ -284,6 +292,8 @@ impl StorageEngine {
                 let _ = cleanup.persist.delete_shard(shard);
             }
         }
+        #[cfg(inputlayer_verif)]
+        crate::verif_hooks::yield_point("se.drop.after_shards");
         if cleanup.data_dir.exists() {
             let _ = fs::remove_dir_all(&cleanup.data_dir);
             // Sync parent directory to ensure directory deletion is durable
@@ -293,6 +303,8 @@ impl StorageEngine {
                 }
             }
         }
+        #[cfg(inputlayer_verif)]
+        crate::verif_hooks::yield_point("se.drop.before_untombstone");
         // Remove tombstone - name is now safe to reuse
         self.dropping_kgs.write().remove(&cleanup.name);
         let elapsed_ms = start.elapsed().as_millis() as u64;
@@ -303,6 +315,8 @@ impl StorageEngine {
     /// Convenience method that combines prepare + finish phases.
     pub fn drop_knowledge_graph(&self, name: &str) -> StorageResult<()> {
         let cleanup = self.prepare_drop_knowledge_graph(name)?;
+        #[cfg(inputlayer_verif)]
+        crate::verif_hooks::yield_point("se.drop.after_prepare");
         self.finish_drop_knowledge_graph(cleanup);
         Ok(())
     }
@@ -465,6 +479,8 @@ impl StorageEngine {
             }
         }
 
+        #[cfg(inputlayer_verif)]
+        crate::verif_hooks::yield_point("se.insert.after_checks");
         // Hold dropping_kgs read guard across the entire persist operation
         // to prevent a TOCTOU race where a KG drop starts between the check
         // and the persist call. The read lock allows concurrent inserts but
@@ -478,6 +494,8 @@ impl StorageEngine {
         let shard = format!("{kg}:{relation}");
         let time = self.logical_time.fetch_add(1, Ordering::SeqCst);
 
+        #[cfg(inputlayer_verif)]
+        crate::verif_hooks::yield_point("se.insert.after_time");
         // Create DD-style updates (+1 diff for insert)
         let updates: Vec<Update> = tuples
             .iter()
@@ -487,6 +505,8 @@ impl StorageEngine {
         // Persist first (durability guarantee via WAL + batches)
         let persist_start = Instant::now();
         self.persist.ensure_shard(&shard)?;
+        #[cfg(inputlayer_verif)]
+        crate::verif_hooks::yield_point("se.insert.after_ensure_shard");
         self.persist.append(&shard, &updates)?;
         let persist_ms = persist_start.elapsed().as_millis() as u64;
         info!(
@@ -500,6 +520,8 @@ impl StorageEngine {
         // Release dropping_kgs guard before acquiring KG write lock
         drop(dropping_guard);
 
+        #[cfg(inputlayer_verif)]
+        crate::verif_hooks::yield_point("se.insert.after_persist");
         // Update in-memory state
         let db = self
             .knowledge_graphs
@@ -589,6 +611,8 @@ impl StorageEngine {
         let shard = format!("{kg}:{relation}");
         let time = self.logical_time.fetch_add(1, Ordering::SeqCst);
 
+        #[cfg(inputlayer_verif)]
+        crate::verif_hooks::yield_point("se.delete.after_time");
         // Create DD-style updates (-1 diff for delete)
         let updates: Vec<Update> = tuples
             .iter()
@@ -597,11 +621,15 @@ impl StorageEngine {
 
         // Persist first (durability guarantee via WAL + batches)
         self.persist.ensure_shard(&shard)?;
+        #[cfg(inputlayer_verif)]
+        crate::verif_hooks::yield_point("se.delete.after_ensure_shard");
         self.persist.append(&shard, &updates)?;
 
         // Release dropping_kgs guard before acquiring KG write lock
         drop(dropping_guard);
 
+        #[cfg(inputlayer_verif)]
+        crate::verif_hooks::yield_point("se.delete.after_persist");
         // Update in-memory state
         let db = self
             .knowledge_graphs
@@ -1849,6 +1877,8 @@ impl StorageEngine {
             knowledge_graphs,
         };
 
+        #[cfg(inputlayer_verif)]
+        crate::verif_hooks::yield_point("se.save_meta.before_write");
         metadata.save(&metadata_dir.join("knowledge_graphs.json"))?;
 
         let elapsed_ms = start.elapsed().as_millis() as u64;
